@@ -303,11 +303,12 @@ int main(int argc, char **argv) {
         std::string dir = make_dir("x");
         h5_warm();
         std::string line;
-        if (getenv("NIXSIM_TRACE")) { fflush(stdout); line = run_plan(p, dir, -1, 0); wipe_dir(dir); }   // in-process, so that the trace is visible
+        if (getenv("NIXSIM_TRACE")) { fflush(stdout); line = run_plan(p, dir, -1, 0); if (getenv("NIXSIM_KEEP")) { printf("files kept in %s\n", dir.c_str()); fflush(stdout); _exit(0); } wipe_dir(dir); }   // in-process, so that the trace is visible
         else fork_run(p, dir, -1, 0, line);
         rmdir(dir.c_str());
         puts(line.c_str());
-        return 0;
+        fflush(stdout);
+        _exit(0);      // no exit handlers: after an in-process (traced) run libhdf5's atexit clean-up would meet abandoned sessions
     }
     if (cmd == "worker" && argc >= 7) {
         std::string lane = argv[2]; uint64_t base = strtoull(argv[3], 0, 10); int tier = atoi(argv[4]); long from = atol(argv[5]), to = atol(argv[6]);
